@@ -12,6 +12,8 @@ names = [
  ('inv_step', "the same as a one-step statement: Inv is preserved by every operation under every failure choice (unless the model says std::terminate)."),
  ('all_findable', "all_findable.  In every state satisfying Inv, pvFind finds exactly the stored keys: no element becomes unreachable, whatever number of generations coexist."),
  ('traversal_once', "traversal_once.  One GetBegin()..GetEnd() traversal (pvInc/pvMove across buckets and generations) is a permutation of the contents without repetition: every element visited exactly once."),
+ ('iterator_traversal_once', "traversal_once for the ITERATOR STATE MACHINE (pvInc / pvMove, HashSet.h:349-383: bucket index, position inside the bucket, switch to mNextBuckets): started at GetBegin() in any state satisfying Inv -- any number of coexisting generations -- it needs exactly mCount increments, visits a duplicate-free permutation of the contents and then equals the end iterator (termination)."),
+ ('find_buckets_returns_owner', "pvFindBuckets as coded (HashSet.h:1220-1237: single-table shortcut, else walk the generations newest first, skip those with bucketIndex >= bucket count, test whether the bucket iterator lies in the address range of that bucket) returns the generation in which pvFind found the item -- so pvRemove (which the model routes through it) acts on the right table in every multi-generation state.  Memory-model assumption: item storage of different buckets/generations is disjoint."),
  ('removable', "removable.  In every state satisfying Inv (e.g. an interrupted migration with 3 generations) Remove(key) of a present key succeeds, removes exactly that key, keeps Inv and the chain; afterwards the key is not found."),
  ('history_refines_set', """all histories refine the abstract set.  Along every history with every failure schedule, each result is the one a
    mathematical set would give: Insert says inserted iff the key was absent (or fails with the set unchanged), Find/Remove
@@ -28,6 +30,8 @@ names = [
    process and ALL succeed; after more than max(0, mCapacity - mCount) of them (at the latest at the next growth) the chain
    is back to ONE generation, and it stays single.  Needs kind_ok2 (the probe sequence reaches every bucket (C13),
    CalcCapacity never exceeds the physical size) and kind_ok3 (capacities grow with the table size)."""),
+ ('reserve_completes_migration_thm', "Reserve(n) with a granted allocation and no failure, n > mCapacity and n >= mCount, issued in ANY state satisfying Inv (e.g. several generations left by interrupted migrations): all items are migrated into the new table, exactly ONE generation remains, contents unchanged, capacity >= n.  (Refused / interrupted Reserve: C11_inv_step, C11_history_refines_set, C11_failed_op_changes_nothing.)"),
+ ('clear_any_state', "Clear(shrink) in any state satisfying Inv (e.g. an interrupted migration): the result satisfies Inv, is empty, and has at most one table (older generations are released)."),
  ('reachable_cap_ok', "the premise CapOk of the previous theorem (mCapacity <= physical size of the newest table) holds in every state reachable from the empty container that has a table, for every history and failure schedule."),
  ('insert_never_fails_check', "since the fix of pvAddGrow (size loop instead of MOMO_CHECK(newCapacity > mCount)): in every reachable state, whatever failed before, no insertion ends in a capacity-check failure (model result RCheck), i.e. an overloaded table can always try to grow again."),
  ('concrete_kind_ok', "the hypotheses kind_ok hold for the concrete kinds used by the extracted model (mask start index, linear and triangular probing, exact max-probe bound, both growth policies)."),
@@ -67,3 +71,6 @@ for n, c in names:
     tn = 'C11_' + n.replace('_thm', '')
     res += '(* %s *)\nTheorem %s :\n  %s.\nProof. exact %s. Qed.\nPrint Assumptions %s.\n\n' % (c, tn, types[n].strip().replace('\n', '\n  '), n, tn)
 open('Properties_C11.v','w').write(res)
+import os, glob
+for f in glob.glob('chk.*') + glob.glob('.chk.*'):
+    os.remove(f)
